@@ -121,7 +121,10 @@ func checkSegCase(c segCase) (msg string, bad bool, nontrivial bool) {
 // boundaries of the accepted range (maxLen up to MaxInt32).
 func genSegLens(t *rapid.T, n int) (lo, hi int) {
 	lo = genSize(t, "minLen", n+1, 0, 1, 2, 3)
-	switch weighted(t, "maxKind", 3, 2, 2, 1) {
+	switch weighted(t, "maxKind", 3, 2, 2, 1, 1) {
+	case 4:
+		// the number of levels that can be reported is around a word size
+		hi = lo + rapid.SampledFrom([]int{63, 64, 62, 65, 31, 32, 33, 127, 128, 7, 8, 15, 16}).Draw(t, "maxLenWord")
 	case 0:
 		hi = lo + genSize(t, "maxLenD", n+1, 0, 1, 2)
 	case 1:
@@ -238,6 +241,10 @@ func TestC10Deep(t *testing.T) {
 			c.MinLen, c.MaxLen = genSegLens(t, n)
 		case 1:
 			c.MinLen, c.MaxLen = rapid.IntRange(0, 3).Draw(t, "minLen"), rapid.IntRange(100, 300).Draw(t, "maxLenAround")
+			if rapid.Bool().Draw(t, "deepWord") {
+				c.MinLen = rapid.IntRange(0, 40).Draw(t, "minLenDeep")
+				c.MaxLen = c.MinLen + rapid.SampledFrom([]int{63, 64, 62, 65, 31, 32, 33, 127, 128}).Draw(t, "maxLenWord")
+			}
 		default:
 			c.MinLen, c.MaxLen = rapid.IntRange(0, 3).Draw(t, "minLen"), n+1
 		}
